@@ -450,7 +450,7 @@ func (w *World) apply(op Op) Res {
 				w.HChg[op.A] = true
 			}
 		}()
-		r := guard(func() error { return m.Insert(ctx, cfg.Key(op.K), cfg.Vals[op.V]) })
+		r := guard(func() error { return m.Insert(ctx, cfg.FreshKey(op.K), cfg.FreshVal(op.V)) })
 		if r.Err == nil && r.Panic == nil {
 			if old, ok := w.Model[op.A][op.K]; !ok || old != op.V {
 				w.touch(op.A, op.K)
@@ -466,7 +466,7 @@ func (w *World) apply(op Op) Res {
 				w.HChg[op.A] = true
 			}
 		}()
-		r := guard(func() error { return m.Delete(ctx, cfg.Key(op.K), cfg.Vals[op.V]) })
+		r := guard(func() error { return m.Delete(ctx, cfg.FreshKey(op.K), cfg.FreshVal(op.V)) })
 		if r.Err == nil && r.Panic == nil {
 			delete(w.Model[op.A], op.K)
 			w.touch(op.A, op.K)
